@@ -9,7 +9,7 @@ import shutil
 from .common import BUILD_ROOT, GUARD, HARNESS, REPO, CheckError, log, run
 
 CFLAGS = "-O1 -g -fsanitize=address -fno-omit-frame-pointer -fno-optimize-sibling-calls -D%s -Wno-error" % GUARD
-KEEP = 3
+KEEP = 8            # plus: never prune a directory used within the last 90 minutes (concurrent checks / worktrees)
 
 
 def tree_hash():
@@ -44,7 +44,10 @@ def _prune(keep_name):
     except FileNotFoundError:
         return
     ents = sorted(ents, key=lambda e: os.path.getmtime(os.path.join(BUILD_ROOT, e)), reverse=True)
+    import time
     for e in [x for x in ents if x != keep_name][KEEP - 1:]:
+        if time.time() - os.path.getmtime(os.path.join(BUILD_ROOT, e)) < 90 * 60:
+            continue
         shutil.rmtree(os.path.join(BUILD_ROOT, e), ignore_errors=True)
 
 
